@@ -230,6 +230,8 @@ extend("C10", "chain rebinding: Chain.Reset / ResetWire from an arbitrary left-o
 
 extend("C06", "the stream listeners' in-place FORMERR/NOTIMP rejection (tcpJob.rejectInPlace through the real stream staging), for all 2^96 request headers and any left-over transmit-buffer contents: one frame of exactly twelve octets echoing id and opcode with QR set, the verdict's rcode, no AD the client did not send and all counts zero.")
 
+extend("C01", "unsigned data only below a proven insecure delegation: Resolver.provenInsecureDelegation / authenticatedDelegationDS over scripted outcomes of the DS sub-query, the signature check and the delegation proof at each zone-cut candidate - true only if every cut above was a verified secure delegation and this cut's DS answer verified and holds no usable DS, or none with a verified delegation proof from the signer's own zone; every DS answer is checked against the zone directly above; any failed lookup, failed/errored check, foreign-zone or missing proof keeps the data bogus.")
+
 NA_REASON = "no check registered yet: the solver-based harness for this property is still being built in this session (see DESIGN.md §5 for the plan)"
 def main():
     props = [json.loads(l) for l in open(os.path.join(ROOT, "properties.jsonl"))]
